@@ -168,10 +168,10 @@ def generate_section_geometry(sections, symmetry, section_data, ny, nx, root_sec
             panel_geom_y[0 : ny[sec]] = np.linspace(root_y, root_y + b, ny[sec])
 
             for i in range(len(root_x)):
-                panel_geom_x[i, :] = root_x[i] + ((tip_x[i] - root_x[i]) / (b / 2)) * (panel_geom_y - root_y)
+                panel_geom_x[i, :] = root_x[i] + ((tip_x[i] - root_x[i]) / b) * (panel_geom_y - root_y)
 
-        panel_gy[sec] = panel_geom_y
-        panel_gx[sec] = panel_geom_x
+            panel_gy[sec] = panel_geom_y
+            panel_gx[sec] = panel_geom_x
 
     return panel_gx, panel_gy
 
